@@ -4,6 +4,8 @@ a Python renderer (cross-checked against the extracted Coq `render_top`), wire e
 out-of-guard perturbations used only for the model-vs-code correspondence."""
 from __future__ import annotations
 
+import re
+
 KCODE = {"if": 0, "elif": 1, "else": 2, "try": 3, "except": 4, "while": 5, "for": 6}
 KNAME = {v: k for k, v in KCODE.items()}
 CONT = ("elif", "else", "except")
@@ -637,6 +639,17 @@ def trail(rng, density):
     if rng.random() < 0.6:
         return rng.choice(["  ", " ", "", "\t"]) + rng.choice(COMMENT_TEXTS)
     return rng.choice(TRAIL_WS)
+
+
+_IMPORT_STMT = re.compile(r"^(?:import|from\s+\S+\s+import)\s+[^\s;][^;]*$")
+
+
+def imports_as_directives(tops):
+    """since "fix: reject statements the transpiler cannot translate instead of dropping them" parse() filters EVERY
+    column-0 import statement itself (before: eight particular Reduino imports; `import os` / `from math import sin` went
+    to _parse_simple_lines as one-line snippets): such a top-level leaf is an ("imp", text) item of the layout guard"""
+    return [("imp", canon_spacing(t[1][0][1])) if t[0] == "chain" and len(t[1]) == 1 and t[1][0][0] == "leaf"
+            and _IMPORT_STMT.match(canon_spacing(t[1][0][1]).strip()) else t for t in tops]
 
 
 def lay_node(rng, n, u, depth, density, sp):
